@@ -319,17 +319,17 @@ Qed.
 Lemma md_list_length n md : md_len md n -> length (md_list n md) = n.
 Proof. destruct md; simpl; intros H; [exact H|apply repeat_length]. Qed.
 
-Lemma existsb_truthy_nulls n : existsb py_truthy (repeat JNull n) = false.
+Lemma nothing_nulls n : forallb holds_nothing (repeat JNull n) = true.
 Proof. induction n; simpl; auto. Qed.
 
 Lemma cast_md_written n md : md_objs md -> cast_md (md_list n md) = ROk (md_canon md).
 Proof.
   destruct md as [l|]; simpl; intros H.
-  - unfold cast_md. destruct (existsb py_truthy l) eqn:E; cbn [negb]; [|reflexivity].
+  - unfold cast_md. destruct (forallb holds_nothing l) eqn:E; [reflexivity|].
     rewrite (mapM_ok _ (fun x => x)).
     + rewrite map_id. reflexivity.
     + intros x Hx. rewrite Forall_forall in H. specialize (H x Hx). destruct x; try discriminate. reflexivity.
-  - unfold cast_md. rewrite existsb_truthy_nulls. reflexivity.
+  - unfold cast_md. rewrite nothing_nulls. reflexivity.
 Qed.
 
 Lemma as_str_strs ids : mapM as_str (map JStr ids) = ROk ids.
@@ -339,21 +339,14 @@ Lemma element_type_known c :
   existsb (fun t => py_eq (JStr (element_type c)) (JStr t)) ELEMENT_TYPES_TABLE = true.
 Proof. unfold element_type. destruct ((0 <? jnobs c)%nat && (0 <? jnsamp c)%nat); reflexivity. Qed.
 
-Lemma w_columns_balanced c : (jnobs c = 0 <-> jnsamp c = 0)%nat ->
-  w_columns c = JArr (jrecords (j_sids c) (j_smd c)).
-Proof.
-  intros H. unfold w_columns. destruct (Nat.eqb_spec (jnobs c) 0) as [E|E]; [|reflexivity].
-  apply H in E. unfold jnsamp in E. destruct (j_sids c); [reflexivity|discriminate].
-Qed.
-
 (* C02 core: reading back the tree the writer produces gives the table it was written from *)
 Theorem json_tree_roundtrip c tid :
-  wfj c -> (jnobs c = 0 <-> jnsamp c = 0)%nat -> from_json (to_json_tree c tid) = ROk (canon_jt c).
+  wfj c -> from_json (to_json_tree c tid) = ROk (canon_jt c).
 Proof.
-  intros (W1 & W2 & W3 & W4 & W5 & W6 & W7 & W8) Hbal.
+  intros (W1 & W2 & W3 & W4 & W5 & W6 & W7 & W8).
   unfold from_json, to_json_tree.
   change (py_getitem (JObj (to_json_fields c tid)) (K "columns")) with (ROk (A := json) (w_columns c)).
-  rewrite (w_columns_balanced c Hbal). cbn [bind py_iter].
+  unfold w_columns. cbn [bind py_iter].
   unfold jrecords.
   rewrite ids_of_records by (apply md_list_length; exact W6). cbn [bind].
   rewrite mds_of_records by (apply md_list_length; exact W6). cbn [bind].
@@ -389,10 +382,10 @@ Proof.
 Qed.
 
 Corollary json_tree_roundtrip_normal c tid :
-  wfj c -> (jnobs c = 0 <-> jnsamp c = 0)%nat -> md_normal (j_omd c) -> md_normal (j_smd c) ->
+  wfj c -> md_normal (j_omd c) -> md_normal (j_smd c) ->
   from_json (to_json_tree c tid) = ROk c.
 Proof.
-  intros W B N1 N2. rewrite json_tree_roundtrip by assumption. f_equal.
+  intros W N1 N2. rewrite json_tree_roundtrip by assumption. f_equal.
   unfold canon_jt. destruct c as [o s m omd smd ty gb dt]; simpl in *.
   f_equal.
   - destruct omd as [l|]; simpl in *; [rewrite N1|]; reflexivity.
@@ -476,27 +469,20 @@ Ltac solve_wfj :=
   try (apply str_dup_false_NoDup; vm_compute; reflexivity);
   repeat (constructor; try reflexivity).
 
-Lemma empty_observation_axis_loses_samples :
-  exists c tid c', wfj c /\ from_json (to_json_tree c tid) = ROk c' /\ j_sids c' <> j_sids c.
-Proof.
-  exists (mkJT [] [K "a"; K "b"] [] None None JNull (JStr (K "g")) (JStr (K "d"))), (K "None").
-  eexists. split; [solve_wfj|]. split; [vm_compute; reflexivity|discriminate].
-Qed.
-
-Lemma empty_sample_axis_unclosed : exists c, wfj c /\ writer_closes_columns c = false.
-Proof.
-  exists (mkJT [K "a"; K "b"] [] [[]; []] None None JNull (JStr (K "g")) (JStr (K "d"))).
-  split; [solve_wfj|reflexivity].
-Qed.
+(* tables with an empty axis (outside the 1..N x 1..M domain of the property, inside "any table") *)
+Definition empty_obs_table : jtable :=
+  mkJT [] [K "a"; K "b"] [] None None JNull (JStr (K "g")) (JStr (K "d")).
+Definition empty_samp_table : jtable :=
+  mkJT [K "a"; K "b"] [] [[]; []] None None JNull (JStr (K "g")) (JStr (K "d")).
+Lemma empty_axis_tables_ok : wfj empty_obs_table /\ wfj empty_samp_table.
+Proof. split; [unfold empty_obs_table|unfold empty_samp_table]; solve_wfj. Qed.
 
 Definition witness_table : jtable :=
   mkJT [K "o""1"; K "o\2"] [K "s1"; K "s2"; K "s3"] [[0; 5; 0]; [-7; 0; 9]]
        (Some [JObj [(K "k", JArr [JInt 1; JNull])]; JObj []]) None
        (JStr (K "OTU table")) (JStr (K "gen ""by""")) (JStr (K "2020-01-02T03:04:05")).
 Lemma witness_table_ok :
-  wfj witness_table /\ (jnobs witness_table = 0 <-> jnsamp witness_table = 0)%nat
-  /\ md_normal (j_omd witness_table) /\ md_normal (j_smd witness_table).
+  wfj witness_table /\ md_normal (j_omd witness_table) /\ md_normal (j_smd witness_table).
 Proof.
-  split; [unfold witness_table; solve_wfj|].
-  split; [split; discriminate|]. split; reflexivity.
+  split; [unfold witness_table; solve_wfj|]. split; reflexivity.
 Qed.
